@@ -334,6 +334,15 @@ def run_property(prop, tier="quick", seed=0, jobs=None, verbose=False):
     return contracts, lemmas, out
 
 
+def _scenario_of(c, rname):
+    """the scenario a result '<scenario>/<label>' belongs to (scenario names may contain '/': the longest one that is a prefix)"""
+    best = None
+    for sn, _ in getattr(c, "scenarios", []):
+        if rname.startswith(sn + "/") and (best is None or len(sn) > len(best)):
+            best = sn
+    return best if best is not None else rname.split("/")[0]
+
+
 def aggregate(prop, contracts, lemmas, out):
     """obligation name -> dict(status, backends, secs, paths, fail=first failing sub-result)"""
     obs = {}
@@ -351,7 +360,7 @@ def aggregate(prop, contracts, lemmas, out):
         for x in r["results"]:
             name = f"{prop}/{c.name}/{x['name']}"
             o = obs.setdefault(name, dict(status="proved", backends=set(), secs=0.0, paths=0, fail=None,
-                                          contract=i, kind=x["kind"], sname=x["name"].split("/")[0],
+                                          contract=i, kind=x["kind"], sname=_scenario_of(c, x["name"]),
                                           bound=getattr(c, "bound", None)))
             o["paths"] += 1
             o["secs"] += x["secs"]
